@@ -350,6 +350,16 @@ example : (fetch (fun x : Bytes => x) (fun _ => [1, 2, 3]) exLoc 2 [0, 1] exG).1
 example : (fetch (fun x : Bytes => x) (fun _ => [1, 2, 4]) exLoc 2 [0, 1] exG).1.err = some .badChecksum := by
   decide
 
+/-- Why `C03_cache_sound` says "the first n bytes" and the exact statement needs a consistent size
+hint (notes O3): a locator whose hint (2) is smaller than the content, answered without
+Content-Length by the full, correctly hashing body, is stored as the first 2 bytes. -/
+example : (fetch (fun x : Bytes => x) (fun _ => [1, 2, 3]) "0123456789abcdef0123456789abcdef+2".toList 1 [0]
+    { scripts := [[.ok none exBody]] }).1 = { data := [1, 2], err := none } := by decide
+
+/-- …while the same answer with its Content-Length declared is rejected at once. -/
+example : (fetch (fun x : Bytes => x) (fun _ => [1, 2, 3]) "0123456789abcdef0123456789abcdef+2".toList 1 [0]
+    { scripts := [[.ok (some 3) exBody]] }).1.err = some .proto := by decide
+
 /-- the transition system reaches states with finished entries and delivered results -/
 example (out : Key → Entry → Prop) (k : Key) (e : Entry) (h : out k e) :
     Reach out (apply (apply (apply CS.init (.lookup 0 k)) (.lookup 1 k)) (.fetchDone (k, 0) e)) :=
